@@ -308,7 +308,7 @@ theorem special_or_none_is_none (t : SNode Str) (h : Option Str)
 def hostStr (hn : Str) : Str := rstripChars (lower hn) ['.']
 
 theorem join_hostParts (hn : Str) : join dot (hostParts hn) = hostStr hn := by
-  simp [hostParts, hostStr, dot, join_splitOn]
+  simp [hostParts, hostStr, dot, join_splitOn_c08]
 
 /-- **The two parts of `split` re-join to the lower-cased hostname**: either the host is a
 bare suffix (first part empty, second part the whole host), or `first + "." + second` is
